@@ -560,6 +560,8 @@ type genState struct {
 	cases    []Case
 	distinct map[string]bool
 	valid    map[string][][]byte // valid encodings per type, seeds for mutation
+	others   []interface{}       // objects generated earlier, encoded between the reads of the reader path
+	nvalue   int
 	maxRatio float64
 }
 
@@ -605,6 +607,17 @@ func (g *genState) valueCase(e *entry) {
 			g.res.Count("nondeterministic_encoding")
 			break
 		}
+	}
+	// the encoder's reader and writer outputs are observations of the same encoding
+	g.nvalue++
+	viaReader := g.readerPath(e, p, b, &mv, g.nvalue, g.nvalue/5)
+	if !bytes.Equal(viaReader, b) || g.nvalue%4 == 0 {
+		rc := Case{Kind: "enc-reader", Type: e.name, ty: e.id, Bytes: hex.EncodeToString(viaReader), Value: &mv}
+		rc.coq = fmt.Sprintf("PEncR %d (%s) %s", e.id, mv.Coq(), byteList(viaReader))
+		g.add(rc)
+	}
+	if len(b) > 200 && len(g.others) < 24 && !invalid {
+		g.others = append(g.others, p.Interface())
 	}
 	o := goDecode(e, b, true)
 	rt := false
@@ -987,6 +1000,19 @@ func replay(file string) {
 		g.itemCase(b)
 	case strings.HasPrefix(h.Type, "handler:"):
 		replayHandler(g, h)
+	case strings.HasPrefix(h.What, "encoder-reader-path-differs") || strings.HasPrefix(h.What, "encoder-writer-path-differs"):
+		e := entryByName(h.Type)
+		o := goDecode(e, b, false)
+		if e == nil || !o.Accepted {
+			fmt.Println("the stored encoding does not decode")
+			os.Exit(2)
+		}
+		mv, _ := projObj(o.obj)
+		for c := 0; c < 5; c++ {
+			for m := 0; m < len(readerModes); m++ {
+				g.readerPath(e, o.obj, b, &mv, c, m)
+			}
+		}
 	case h.Value != nil && strings.HasPrefix(h.What, "encoding-not-deterministic"):
 		e := entryByName(h.Type)
 		o := goDecode(e, b, false)
